@@ -67,6 +67,9 @@ func genC07(t *rapid.T, _ *evid.Rec) caseC07 {
 		} else if cls == 2 {
 			text = gen.Mutate(t, text, "mut")
 		}
+		if rapid.IntRange(0, 5).Draw(t, "prefixLine") == 0 {
+			text = gen.PrefixLine(t, text, "prefix")
+		}
 	}
 	c := caseC07{Text: model.Text(text), Perm: rapid.IntRange(0, 1<<20).Draw(t, "perm")}
 	c.Workers = []int{2, 3}
